@@ -2,7 +2,8 @@
 
 Nothing here calls xDSL's traits / get_effects / PostOrderIterator / is_trivially_dead / use lists: an op is
 classified by its *name* through the table below (MLIR's `wouldOpBeTriviallyDead` semantics), uses are found by
-scanning `op.operands` of every op of the module, reachable blocks by an own DFS over `last_op.successors`.
+scanning `op.operands` of every op of the module, reachable blocks by an own DFS over `last_op.successors`
+(the successors of ANY last op, registered terminator or op of an unregistered dialect, are CFG edges).
 
 Effect atoms: "read", "write", "free", "alloc_own" (allocation of one of the op's own results), "alloc_foreign"
 (allocation tied to nothing / to a value that is not a result of the op), "unknown" (op declares nothing).
@@ -62,6 +63,9 @@ TABLE = {
     "cf.br": (True, False, _P, False),
     "cf.cond_br": (True, False, _P, False),
     "builtin.module": (False, False, _U, False),
+    # op of an unregistered dialect: nothing is known => unknown effects, never removable (and it may be a terminator:
+    # its successors count as CFG edges, see _mark_reach)
+    "builtin.unregistered": (False, False, _U, False),
     "builtin.unrealized_conversion_cast": (False, False, _P, False),
 }
 HARMLESS = frozenset(["read", "alloc_own"])
@@ -193,8 +197,30 @@ def _mark_reach(blks):
         if b.reach:
             continue
         b.reach = True
-        if b.ops and entry_is_term(b.ops[-1].name):
-            stack.extend(b.succ)
+        # any LAST op that lists successors is a CFG edge, whatever the op is (registered terminator or an op of an
+        # unregistered dialect, which may be a terminator); `succ` is only ever recorded for the last op of a block
+        stack.extend(b.succ)
+
+
+def regions_needing_unregistered_edges(s):
+    """Number of regions in which some block is reachable ONLY through the successors of an unregistered last op."""
+    cnt = 0
+    regs = [s.top] + [reg for n in s.nodes for reg in n.regions]
+    for blks in regs:
+        if len(blks) < 2:
+            continue
+        seen = set()
+        stack = [blks[0]]
+        while stack:
+            b = stack.pop()
+            if id(b) in seen:
+                continue
+            seen.add(id(b))
+            if b.ops and b.ops[-1].name != "builtin.unregistered":
+                stack.extend(b.succ)
+        if any(b.reach and id(b) not in seen for b in blks):
+            cnt += 1
+    return cnt
 
 
 def entry_is_term(name):
